@@ -45,6 +45,7 @@ type Step struct {
 	ID        int    `json:"id,omitempty"`
 	Cancelled bool   `json:"cancelled,omitempty"` // publish with an already-cancelled context
 	UseCtx    bool   `json:"usectx,omitempty"`    // PublishContext with a live context
+	Any       bool   `json:"any,omitempty"`       // published through the static type any (Publish[any])
 }
 
 type SeqCase struct {
@@ -150,7 +151,7 @@ type vkey struct{}
 // with (UseCtx publishes), for handlers that cancel it mid-dispatch.
 var pubCancels sync.Map
 
-func publish(bus *eventbus.EventBus, t, id int, cancelled, useCtx bool) {
+func publish(bus *eventbus.EventBus, t, id int, cancelled, useCtx bool, viaAny ...bool) {
 	var ctx context.Context
 	switch {
 	case cancelled:
@@ -161,6 +162,23 @@ func publish(bus *eventbus.EventBus, t, id int, cancelled, useCtx bool) {
 		// never cancelled by the publisher: asynchronous handlers may still
 		// be waiting to run when Publish returns
 		pubCancels.Store(id, cancel)
+	}
+	if len(viaAny) > 0 && viaAny[0] {
+		var ev any
+		switch t {
+		case 0:
+			ev = EvA{id}
+		case 1:
+			ev = EvB{id}
+		default:
+			ev = EvC{id}
+		}
+		if ctx == nil {
+			eventbus.Publish(bus, ev)
+		} else {
+			eventbus.PublishContext(bus, ctx, ev)
+		}
+		return
 	}
 	switch t {
 	case 0:
@@ -234,7 +252,7 @@ func RunSeq(c *SeqCase) *vkit.Outcome {
 			}
 			regs[h.T] = append(regs[h.T], &mreg{h: s.H})
 		case "pub":
-			publish(bus, s.T, s.ID, s.Cancelled, s.UseCtx)
+			publish(bus, s.T, s.ID, s.Cancelled, s.UseCtx, s.Any)
 			bus.Wait()
 			var keep []*mreg
 			var newRegs []int // handlers armed by Once handlers fired in this publish
@@ -324,6 +342,7 @@ type Pub struct {
 	ID        int  `json:"id"`
 	Cancelled bool `json:"cancelled,omitempty"`
 	UseCtx    bool `json:"usectx,omitempty"`
+	Any       bool `json:"any,omitempty"` // published through the static type any
 }
 
 type ConcCase struct {
@@ -334,7 +353,16 @@ type ConcCase struct {
 	Yield      []int   `json:"yield,omitempty"` // per publisher: Gosched calls before each publish
 	Ambient    int     `json:"ambient,omitempty"`
 	SharedOpts bool    `json:"shared_opts,omitempty"`
+	// Late > 0: while the publishers run, another goroutine subscribes Late
+	// Once handlers for a fourth event type that nobody publishes during the
+	// run.  After quiescence one event of that type is published: every one
+	// of them runs exactly once and none stays subscribed - events of other
+	// types must not have used them up.
+	Late int `json:"late,omitempty"`
 }
+
+// EvD is only published after the concurrent phase (see ConcCase.Late).
+type EvD struct{ ID int }
 
 // concProgress counts handler invocations of the running concurrent case (for
 // the stall oracle: handlers are trivial, so a case that neither finishes nor
@@ -373,6 +401,9 @@ func runConc(c *ConcCase) *vkit.Outcome {
 	o.Nontrivial = conc > 0
 	if o.Nontrivial {
 		o.Class("two_or_more_concurrent_eligible_publishers")
+		if c.Late > 0 {
+			o.Class("once_handlers_of_another_type_subscribed_meanwhile")
+		}
 	}
 	for round := 0; round < c.Rounds; round++ {
 		bus := eventbus.New(busmodel.Ambient(c.Ambient)...)
@@ -399,9 +430,25 @@ func runConc(c *ConcCase) *vkit.Outcome {
 							runtime.Gosched()
 						}
 					}
-					publish(bus, p.T, p.ID, p.Cancelled, p.UseCtx)
+					publish(bus, p.T, p.ID, p.Cancelled, p.UseCtx, p.Any)
 				}
 			}(pi, ps)
+		}
+		var lateRuns []atomic.Int32
+		if c.Late > 0 {
+			lateRuns = make([]atomic.Int32, c.Late)
+			done.Add(1)
+			go func() {
+				defer done.Done()
+				start.Wait()
+				for i := 0; i < c.Late; i++ {
+					i := i
+					runtime.Gosched()
+					if err := eventbus.Subscribe(bus, func(EvD) { lateRuns[i].Add(1) }, src.Once()); err != nil {
+						lateRuns[i].Add(100)
+					}
+				}
+			}()
 		}
 		for int(ready.Load()) < len(c.Publishers) {
 			runtime.Gosched()
@@ -409,6 +456,31 @@ func runConc(c *ConcCase) *vkit.Outcome {
 		start.Done()
 		done.Wait()
 		bus.Wait()
+		if c.Late > 0 {
+			for i := range lateRuns {
+				if n := lateRuns[i].Load(); n != 0 {
+					o.Failf("", "round %d: Once handler %d for EvD, subscribed while events of other types were being published, ran %d times before any EvD was published", round, i, n)
+					return o
+				}
+			}
+			if n := eventbus.HandlerCount[EvD](bus); n != c.Late {
+				o.Failf("", "round %d: %d Once handlers for EvD were subscribed during the run and none was eligible for any event yet, HandlerCount[EvD] = %d", round, c.Late, n)
+				return o
+			}
+			eventbus.Publish(bus, EvD{1})
+			eventbus.Publish(bus, EvD{2})
+			bus.Wait()
+			for i := range lateRuns {
+				if n := lateRuns[i].Load(); n != 1 {
+					o.Failf("", "round %d: Once handler %d for EvD (subscribed while %d goroutines published other types) ran %d times for the two EvD events published afterwards; expected exactly once", round, i, len(c.Publishers), n)
+					return o
+				}
+			}
+			if n := eventbus.HandlerCount[EvD](bus); n != 0 {
+				o.Failf("", "round %d: HandlerCount[EvD] = %d after every Once handler of it fired", round, n)
+				return o
+			}
+		}
 		wantCount := [2]int{}
 		for hi, h := range c.Handlers {
 			cl.mu.Lock()
